@@ -141,6 +141,24 @@ fn gen_scale(rng: &mut Rng, tier: Tier) -> (String, String) {
     let seq = |rng: &mut Rng, n: usize, pool: &[&str]| -> Vec<String> { (0..n).map(|_| rng.pick(pool).to_string()).collect() };
     // both-sides-long cases are the expensive ones (model ~0.2 s at 300 x 300): about 1.3 in 10
     let both = |rng: &mut Rng| if thorough && rng.chance(1, 4) { 400 } else { scale_size(rng, 300) };
+    if rng.chance(1, 5) {
+        // block rotation over all-distinct words: a = P R, b = R P. Every longest common subsequence (max(|P|, |R|)) pairs
+        // words that are |P| or |R| positions apart — far from the diagonal: a banded or windowed DP loses it
+        let (p, r) = (rng.range(70, 140), rng.range(70, 160));
+        let word = |k: usize| format!("w{k}x");
+        let pw: Vec<String> = (0..p).map(word).collect();
+        let rw: Vec<String> = (p..p + r).map(word).collect();
+        let a: Vec<String> = pw.iter().chain(rw.iter()).cloned().collect();
+        let mut b: Vec<String> = rw.iter().chain(pw.iter()).cloned().collect();
+        if rng.chance(1, 2) {
+            // and a few local edits on top
+            for _ in 0..rng.range(1, 6) {
+                let k = rng.below(b.len());
+                b[k] = format!("e{k}");
+            }
+        }
+        return (join(rng, &a, false), join(rng, &b, false));
+    }
     match rng.below(10) {
         0 => {
             // both sides long; b a mutation of a (several rounds) over a tiny or the full alphabet
@@ -227,6 +245,33 @@ impl Prop for C18 {
         }
         let stream = rng.below(100);
         let maxw = if tier == Tier::Thorough { 9 } else { 7 };
+        if rng.chance(3, 100) {
+            // words that collide under the hash functions a "compare the hashes, not the strings" shortcut would use
+            // (published collisions of FNV-1a-32 / FNV-1-32, djb2, CRC-32, Java's String.hashCode, sdbm): equal hashes,
+            // different words — they must not be matched
+            const COLLIDE: &[(&str, &str)] = &[
+                ("costarring", "liquid"), ("declinate", "macallums"), ("altarage", "zinke"), ("altarages", "zinkes"),
+                ("hetairas", "mentioner"), ("heliotropes", "neurospora"), ("depravement", "serafins"), ("stylist", "subgenera"),
+                ("joyful", "synaphea"), ("redescribed", "urites"), ("dram", "vivency"), ("plumless", "buckeroo"),
+                ("Aa", "BB"), ("AaAa", "BBBB"), ("AaBB", "BBAa"), ("creamwove", "quists"),
+            ];
+            let n = rng.range(1, maxw.max(2));
+            let mut a: Vec<String> = vec![];
+            let mut b: Vec<String> = vec![];
+            for _ in 0..n {
+                let (x, y) = *rng.pick(COLLIDE);
+                let (x, y) = if rng.chance(1, 2) { (x, y) } else { (y, x) };
+                a.push(if rng.chance(1, 4) { x.to_uppercase() } else { x.to_string() });
+                b.push(match rng.below(4) { 0 => x.to_string(), _ => y.to_string() });
+                if rng.chance(1, 3) {
+                    a.push(rng.pick(WORDS).to_string());
+                }
+                if rng.chance(1, 3) {
+                    b.push(rng.pick(WORDS).to_string());
+                }
+            }
+            return mk(&join(rng, &a, false), &join(rng, &b, false), ic);
+        }
         if rng.chance(8, 100) {
             // lcprobe stream: the probe words around 16 uniformly random scalar values; the second text holds
             // the probes of some of them again (so that the matching compares lower-cased probe words)
